@@ -7,7 +7,11 @@ from .. import core
 from ..core import SKIP
 
 ID = "C13"
-RULE = ("ragged lists of 1..N sequences of length 0..M (empty rows, rows of length w-1, w, w+1, short last row) x window/k "
+RULE = ("exhaustive row CONTENTS (every letter assignment) x every w 1..5, total >= w -- thorough: 2 letters: all lists of "
+        "<= 3 rows of length <= 4; 3 letters: <= 2 rows of length <= 4 and 3 rows of length <= 2; 4 letters (bit-packed path): 1 row of "
+        "length <= 5, 2 rows of length <= 3, 3 rows of length <= 2, plus 30k sampled 3-row lists of length <= 4; quick: 2 letters <= 2 "
+        "rows of length <= 3 and 3 rows of length <= 2, 3 and 4 letters 2 rows of length <= 2 (k-mers with k = w observe the mechanism "
+        "injectively; all functions on the 1- and 2-row lists). Then: ragged lists of 1..N sequences of length 0..M (empty rows, rows of length w-1, w, w+1, short last row) x window/k "
         "1..31 x alphabets of size 4 (bit-packed path: ACGT, ACTG) and other sizes (generic path: AB, ABC, ACGTN, amino acids): "
         "exhaustive row-length vectors (N <= 3, M <= 4, k <= 4; letters random) for get_kmers / match_string / "
         "get_motif_scores / count_kmers / get_minimizers (window >= k), plus flat (1-D) input and ASCII input; random "
@@ -94,6 +98,8 @@ def impl(c):
             km = get_kmers(_input(c), c["k"])
             raw = km.raw()
             rows = _ragged_out(raw, flat)
+            if c.get("text", True) is False:
+                return {"rows": rows}
             text = [[km.encoding.to_string(np.int64(h)) for h in row] for row in rows]
             return {"rows": rows, "text": text}
         if op == "minimizers":
@@ -159,8 +165,10 @@ def oracle(c):
         return SKIP
     if op == "kmers":
         k = c["k"]
-        return {"rows": [[_code(n, x) for x in _wins(r, k)] for r in rows],
-                "text": [["".join(alpha[y] for y in x) for x in _wins(r, k)] for r in rows]}
+        out = {"rows": [[_code(n, x) for x in _wins(r, k)] for r in rows]}
+        if c.get("text", True) is not False:
+            out["text"] = [["".join(alpha[y] for y in x) for x in _wins(r, k)] for r in rows]
+        return out
     if op == "minimizers":
         k = c["k"]
         if k > w:
@@ -309,13 +317,50 @@ def cases(tier, rng):
                 for alpha in alphas:
                     rows = _rand_rows(rng, len(alpha), lens)
                     yield from _ops_for(rng, alpha, rows, w, big)
-    # 1b. exhaustive CONTENTS over a two-letter alphabet: every list of <= 2 rows of length <= 3, every w <= 3
-    allrows = [list(x) for l in range(4) for x in itertools.product(range(2), repeat=l)]
-    pairs = [[a] for a in allrows] + [[a, b] for a in allrows for b in allrows]
-    for rows in (pairs if big else rng.sample(pairs, 40)):
-        for w in (1, 2, 3):
-            if sum(len(r) for r in rows) >= w:
-                yield from _ops_for(rng, "AB", rows, w, big)
+    # 1b. exhaustive row CONTENTS (every letter assignment), alphabets of size 2, 3, 4, every w <= 5.
+    #     k-mers with k = w is an injective code of the window, so the `kmers` op alone observes the whole
+    #     flatten/convolve/re-wrap/trim mechanism; the other functions are run on the one- and two-row lists.
+    def contents(n, maxlen):
+        return [list(x) for l in range(maxlen + 1) for x in itertools.product(range(n), repeat=l)]
+
+    def lists(n, nrows, maxlen):
+        return [list(t) for t in itertools.product(contents(n, maxlen), repeat=nrows)]
+
+    if big:
+        scopes = [("AB", 1, 4, True), ("AB", 2, 4, True), ("AB", 3, 4, False),
+                  ("ABC", 1, 4, True), ("ABC", 2, 4, False), ("ABC", 3, 2, False),
+                  ("ACGT", 1, 5, True), ("ACGT", 2, 3, False), ("ACGT", 3, 2, False)]
+    else:
+        scopes = [("AB", 1, 3, True), ("AB", 2, 3, False), ("AB", 3, 2, False), ("ACGT", 2, 2, False), ("ABC", 2, 2, False)]
+    for alpha, nrows, maxlen, full in scopes:
+        for rows in lists(len(alpha), nrows, maxlen):
+            tot = sum(len(r) for r in rows)
+            for w in range(1, 6):
+                if tot < w:
+                    continue
+                if full and (big or rng.random() < 0.5):
+                    yield from _ops_for(rng, alpha, rows, w, big)
+                else:
+                    yield {"op": "kmers", "alpha": alpha, "rows": rows, "k": w, "text": False}
+                    if not big and rng.random() < 0.15:
+                        yield from _ops_for(rng, alpha, rows, w, big)
+    if big:      # a sample of the scopes too large to enumerate (3 rows of length <= 4 over 3 and 4 letters)
+        for alpha in ("ABC", "ACGT"):
+            cs = contents(len(alpha), 4)
+            for _ in range(15000):
+                rows = [rng.choice(cs) for _ in range(3)]
+                w = rng.randint(1, 5)
+                if sum(len(r) for r in rows) >= w:
+                    yield {"op": "kmers", "alpha": alpha, "rows": rows, "k": w, "text": False}
+    # 1c. the packed path across uint64 register borders (32 letters per register)
+    for alpha in ("ACGT", "ACTG"):
+        for L in ((31, 32, 33, 63, 64, 65, 96, 97) if big else (32, 33, 64, 65)):
+            for k in ((1, 2, 3, 15, 16, 17, 30, 31) if big else (1, 2, 16, 31)):
+                lens = [L, rng.choice([0, 1, k - 1, k]), rng.choice([k, k + 1, 32, 33])]
+                rows = _rand_rows(rng, 4, lens)
+                yield {"op": "kmers", "alpha": alpha, "rows": rows, "k": k}
+                yield {"op": "kmers", "alpha": alpha, "rows": [[3] * L, [0] * 33, [3] * 2], "k": k, "text": False}
+                yield {"op": "count", "alpha": alpha, "rows": rows, "k": min(k, 3), "axis": -1}
     # 2. flat (1-D) inputs
     for L in range(1, 7):
         for w in range(1, L + 1):
